@@ -230,8 +230,16 @@ def main():
         result["failure"] = {"case": core.enc(holder["case"]), "msg": v.msg,
                              "key": prop.finding_key(holder["case"], v), "detail": v.detail}
     except Exception:
-        result["harness_error"] = traceback.format_exc()
-        finish(3)
+        if "v" in holder:
+            # Hypothesis saw the violation and could not reproduce it while shrinking (a schedule-dependent failure in C20): the case
+            # that failed is reported as it is; the runner decides by its own replays in fresh processes whether it stands
+            v = holder["v"]
+            result["failure"] = {"case": core.enc(holder["case"]), "msg": v.msg,
+                                 "key": prop.finding_key(holder["case"], v), "detail": v.detail}
+            result["flaky_in_search"] = True
+        else:
+            result["harness_error"] = traceback.format_exc()
+            finish(3)
     finish(0)
 
 
